@@ -1,6 +1,6 @@
 SPECIFICATION Spec
 CONSTANTS MsgSrc <- S6  MsgMid <- M6  MsgTot <- T6  CapSrc = 2  CapAll = 3  MaxDeliv = 12  MaxTick = 4
   GridP <- GP1  GridMM <- GM1
-  DecOnComplete = TRUE  DupCheck = TRUE  TotalCheck = TRUE  CapStrict = TRUE  GcOn = TRUE
+  DecOnComplete = TRUE  DupCheck = TRUE  TotalCheck = TRUE  CapStrict = TRUE  GcOn = TRUE  IdEarly = TRUE
 INVARIANT PrintScn
 CHECK_DEADLOCK FALSE
